@@ -67,6 +67,7 @@ void fill_params(dsched::Params& p, const Case& c, const std::vector<uint16_t>* 
   p.pct_depth = c.cp.pct_depth;
   p.p_switch_x1000 = (uint32_t)c.cp.p_switch;
   p.p_stale_x1000 = (uint32_t)c.cp.p_stale;
+  p.p_eintr_x1000 = (uint32_t)c.cp.p_eintr;
   if (replay) {
     p.replay = true;
     p.decisions = *replay;
@@ -322,7 +323,7 @@ void write_replay(const std::string& path, const Case& c, const std::vector<uint
     << ",\n \"message\": " << jstr(o.message) << ",\n \"case\": " << jstr(o.describe)
     << ",\n \"sched_seed\": " << c.cp.sched_seed << ",\n \"strategy\": " << c.cp.strategy
     << ",\n \"pct_depth\": " << c.cp.pct_depth << ",\n \"p_switch\": " << c.cp.p_switch
-    << ",\n \"p_stale\": " << c.cp.p_stale << ",\n \"allow_known\": " << jstr(getenv("VF_ALLOW_KNOWN") ? getenv("VF_ALLOW_KNOWN") : "")
+    << ",\n \"p_stale\": " << c.cp.p_stale << ",\n \"p_eintr\": " << c.cp.p_eintr << ",\n \"allow_known\": " << jstr(getenv("VF_ALLOW_KNOWN") ? getenv("VF_ALLOW_KNOWN") : "")
     << ",\n \"prog\": [";
   for (size_t i = 0; i < c.prog.size(); i++) f << (i ? "," : "") << c.prog[i];
   f << "],\n \"decisions\": [";
@@ -378,6 +379,7 @@ bool load_replay(const std::string& path, Case* c, std::vector<uint16_t>* dec) {
   c->cp.pct_depth = (int)read_int(t, "pct_depth", 2);
   c->cp.p_switch = (int)read_int(t, "p_switch", 200);
   c->cp.p_stale = (int)read_int(t, "p_stale", 0);
+  c->cp.p_eintr = (int)read_int(t, "p_eintr", 0);
   {
     // the environment switch the case was recorded under (known-finding witnesses)
     size_t p;
@@ -530,6 +532,8 @@ int main_driver(int argc, char** argv, const Target& t) {
     c.cp.p_switch = *rc::gen::resize(100, rc::gen::element(30, 100, 250, 500));
     int weak = *rc::gen::resize(100, rc::gen::inRange<int>(0, 100));
     c.cp.p_stale = (t.allow_weak && weak < t.weak_percent) ? *rc::gen::resize(100, rc::gen::element(100, 300, 600)) : 0;
+    // derived from the schedule seed, not drawn: targets that do not opt in generate exactly what they did before
+    c.cp.p_eintr = (t.eintr_percent > 0 && (int)((c.cp.sched_seed * 2654435761ULL >> 16) % 100) < t.eintr_percent) ? ((c.cp.sched_seed & 1) ? 60 : 250) : 0;
     return c;
   });
 
@@ -540,7 +544,7 @@ int main_driver(int argc, char** argv, const Target& t) {
     if (!have_fail) return false;
     const Case& f = last_fail_case;
     if (c.cp.sched_seed != f.cp.sched_seed || c.cp.strategy != f.cp.strategy || c.cp.pct_depth != f.cp.pct_depth ||
-        c.cp.p_switch != f.cp.p_switch || c.cp.p_stale != f.cp.p_stale)
+        c.cp.p_switch != f.cp.p_switch || c.cp.p_stale != f.cp.p_stale || c.cp.p_eintr != f.cp.p_eintr)
       return false;
     size_t n = std::min<size_t>(last_fail.consumed, f.prog.size());
     if (last_fail.consumed == 0) return false;
